@@ -53,7 +53,7 @@ var Check = &run.Check{
 	Run: runCase,
 }
 
-var opts = javagen.Opts{ExoticNames: true, MinFiles: 1, MaxFiles: 12, MaxMethods: 10, MaxParams: 7, MaxFields: 4, Interfaces: true, Generics: true, Annotations: true, Ctors: true,
+var opts = javagen.Opts{AccessorNames: true, DeepLayout: true, ExoticNames: true, MinFiles: 1, MaxFiles: 12, MaxMethods: 10, MaxParams: 7, MaxFields: 4, Interfaces: true, Generics: true, Annotations: true, Ctors: true,
 	Overloads: true, Excluded: true, Bodies: true, MaxStmts: 4, MaxSites: 10, LongNames: true, Lambdas: true, CStyleArrays: true, SuffixImports: true, SameNameTwoPkgs: true}
 
 func shape(p *javagen.Project) string {
@@ -125,24 +125,38 @@ func runCase(c *run.Ctx, o *run.Outcome) {
 	pathOf := func(rel string) string { return filepath.Join(dir, filepath.FromSlash(rel)) }
 
 	var ident, full []core_domain.CodeDataStruct
+	cliKind := ""
 	useCLI := c.CocaBin != "" && c.Index%cliEvery(c.Tier) == 0
 	if useCLI {
 		o.Count("cli_cases", 1)
-		res := common.RunCLI(c.CocaBin, c.Scratch(), nil, "analysis", "-p", dir)
+		// the directory is named in one of the legal ways a user may name it (absolute, relative, ".", "..", trailing slash)
+		cwd, arg, kind := common.SpellRoot(c.Index/cliEvery(c.Tier), dir, c.Scratch())
+		o.Count("cli_root_spelled_"+kind, 1)
+		res := common.RunCLI(c.CocaBin, cwd, nil, "analysis", "-p", arg)
 		if res.TimedOut {
 			o.SetInconclusive("cli watchdog")
 			return
 		}
 		if res.ExitCode != 0 || strings.Contains(res.Stderr, "panic:") {
-			o.Violate("cli-crash", "`coca analysis` exit %d: %s", res.ExitCode, first(res.Stderr))
+			o.Violate("cli-crash/root="+kind, "`coca analysis -p %s` exit %d: %s", arg, res.ExitCode, first(res.Stderr))
 			return
 		}
-		ib, err1 := ioutil.ReadFile(filepath.Join(c.Scratch(), "coca_reporter", "identify.json"))
-		fb, err2 := ioutil.ReadFile(filepath.Join(c.Scratch(), "coca_reporter", "deps.json"))
+		ib, err1 := ioutil.ReadFile(filepath.Join(cwd, "coca_reporter", "identify.json"))
+		fb, err2 := ioutil.ReadFile(filepath.Join(cwd, "coca_reporter", "deps.json"))
 		if err1 != nil || err2 != nil || json.Unmarshal(ib, &ident) != nil || json.Unmarshal(fb, &full) != nil {
-			o.Violate("cli-no-output", "`coca analysis` did not write readable identify.json / deps.json")
+			o.Violate("cli-no-output/root="+kind, "`coca analysis -p %s` did not write readable identify.json / deps.json", arg)
 			return
 		}
+		// paths in the report are relative to the working directory when the argument was
+		for i := range full {
+			full[i].FilePath = common.AbsFrom(cwd, full[i].FilePath)
+		}
+		for i := range ident {
+			if ident[i].FilePath != "" {
+				ident[i].FilePath = common.AbsFrom(cwd, ident[i].FilePath)
+			}
+		}
+		cliKind = "/cli-root=" + kind
 	} else {
 		panicked, val, site := run.Guard(func() {
 			ia := javaapp.NewJavaIdentifierApp()
@@ -169,7 +183,7 @@ func runCase(c *run.Ctx, o *run.Outcome) {
 	}
 	o.Count("functions_planted", nf)
 	for _, m := range append(ms, ms2...) {
-		o.Violate(m.Sig, "%s", m.Msg)
+		o.Violate(m.Sig+cliKind, "%s", m.Msg)
 	}
 	// second history step (in-process cases): edit the tree in place without changing any file's length (a method
 	// gets a new name of the same length), analyse the same paths again in the same process and decide again
@@ -197,7 +211,7 @@ func runCase(c *run.Ctx, o *run.Outcome) {
 				}
 			}
 			nn := string(nb)
-			clash := nn == m.Name
+			clash := nn == m.Name || javaKeywords[nn]
 			for _, other := range f.Type.Methods() {
 				if other.Name == nn {
 					clash = true
@@ -244,6 +258,15 @@ func runCase(c *run.Ctx, o *run.Outcome) {
 		o.Sample = smp
 	}
 }
+
+// reserved words a randomly drawn same-length method name must not hit
+var javaKeywords = func() map[string]bool {
+	m := map[string]bool{}
+	for _, k := range strings.Fields("abstract assert boolean break byte case catch char class const continue default do double else enum extends final finally float for goto if implements import instanceof int interface long native new package private protected public return short static strictfp super switch synchronized this throw throws transient try void volatile while true false null var") {
+		m[k] = true
+	}
+	return m
+}()
 
 func first(s string) string {
 	s = strings.TrimSpace(s)
